@@ -57,6 +57,7 @@ struct Cfg {
   std::vector<AnsDef> answers;
   long maxNodes = 600000;
   bool escQQ = false;
+  bool lateEcho = false;     // the wire image of the arbitration byte may arrive after a read timeout
   bool enhLongForm = false;  // enhanced: symbols < 0x80 also as RECEIVED frames
   uint8_t enhFeatures = 0;   // feature bits the simulated adapter reports in RESETTED
   bool autoPoll = true;    // a waiter takes its finished request at the end of the step that finished it
@@ -86,6 +87,7 @@ static void parseArg(const std::string& a) {
   else if (k == "keyseen") C.keySeen = b(); else if (k == "reconnect") C.reconnect = b(); else if (k == "maxnodes") C.maxNodes = atol(v.c_str());
   else if (k == "escqq") C.escQQ = b();
   else if (k == "autopoll") C.autoPoll = b();
+  else if (k == "lateecho") C.lateEcho = b();
   else if (k == "enhlong") C.enhLongForm = b(); else if (k == "enhfeat") C.enhFeatures = (uint8_t)atoi(v.c_str());
   else if (k == "events") g_mask = "," + v + ",";
   else if (k == "req") {  // req=<kind>:<hex master without crc>[:restarts]
@@ -152,6 +154,7 @@ struct Input {
   bool usedEcho = false, usedDeliv = false, usedCb = false, usedW = false;
   std::vector<uint8_t> echoW;  // the byte whose echo was decided
   Tracker echoT, delivT;       // tracker state at decision time (to enumerate alternatives)
+  int lateEcho = -1;           // arbitration byte still awaited by the device at decision time (late echo is a delivery choice)
   std::string str() const {
     std::string s;
     if (usedW && wfail) s += "W=f ";
@@ -187,6 +190,7 @@ struct FakeTransport : public Transport {
     if (m_listener) m_listener->notifyTransportStatus(false);
   }
   bool isValid() override { return valid; }
+  int lateEchoByte();
   // enhanced mode: the transport is an adapter simulator speaking the enhanced protocol (whole frames per chunk;
   // splitting inside frames is C14's subject).  armed = master address the adapter shall arbitrate with, or SYN.
   uint8_t armed = SYN;
@@ -244,7 +248,7 @@ struct FakeTransport : public Transport {
     if (buf.empty()) {
       if (timeout == 0) return RESULT_ERR_TIMEOUT;
       std::string d = "to";
-      if (g_in && !g_in->usedDeliv) { g_in->usedDeliv = true; g_in->delivT = g_trk; d = g_in->deliv; }
+      if (g_in && !g_in->usedDeliv) { g_in->usedDeliv = true; g_in->delivT = g_trk; d = g_in->deliv; g_in->lateEcho = lateEchoByte(); }
       if (d == "to" || d == "tl") {
         g_ms += timeout; g_trk.silence();
         if (d == "tl") g_sec += 2;
@@ -414,6 +418,8 @@ struct VerifAccess {
       e->m_infoReqTime = g_sec; }
     t->buf = s.buf; t->org = s.org; t->valid = s.valid; t->armed = (uint8_t)s.armed; g_trk = s.trk;
   }
+  static int arbCheck(BaseDevice* d) { return (int)d->m_arbitrationCheck; }
+  static int arbMaster(BaseDevice* d) { return d->m_arbitrationMaster; }
   static bool pollFinished(ProtocolHandler* h, BusRequest* r) { return h->m_finishedRequests.remove(r, false); }
   static void reconnect(ProtocolHandler* h) { h->reconnect(); }
 };
@@ -447,6 +453,8 @@ std::string Snap::json() const {
 
 // ---------------------------------------------------------------- the system under test
 static FakeTransport* g_t; static BaseDevice* g_d; static DirectProtocolHandler* g_h; static VListener g_l;
+int FakeTransport::lateEchoByte() { return (!C.enhanced && g_d && VerifAccess::arbCheck(g_d)) ? VerifAccess::arbMaster(g_d) : -1; }
+
 static void* g_reqMem;
 
 static void construct() {
@@ -523,9 +531,10 @@ static vf::Rng* g_rng = nullptr;  // random mode: full byte domain
 static void addU(std::vector<std::string>* o, const std::string& s) { if (std::find(o->begin(), o->end(), s) == o->end()) o->push_back(s); }
 static std::string h2(uint8_t x) { char b[4]; snprintf(b, 4, "%02x", x); return b; }
 
-static void delivChoices(const Tracker& t, std::vector<std::string>* o) {
+static void delivChoices(const Tracker& t, std::vector<std::string>* o, int lateEcho = -1) {
   o->clear();
   o->push_back("to");
+  if (lateEcho >= 0 && C.lateEcho) o->push_back(h2((uint8_t)lateEcho));
   bool idle = t.ph == P_DEAD || t.ph == P_QQ || t.ph == P_DONE;
   if (C.longTo && (idle || C.longToAnywhere)) o->push_back("tl");
   if (C.readErr) o->push_back("er");
@@ -628,7 +637,7 @@ static int cmdGraph(const char* outPath) {
       std::string e0 = in.usedEcho ? in.echo : "", d0 = in.usedDeliv ? in.deliv : "";
       int cb0 = in.usedCb ? in.cb : -1; bool w0 = in.usedW && in.wfail;
       if (in.usedEcho) { std::vector<std::string> c; echoChoices(in.echoT, in.echoW[0], &c); for (auto& x : c) alts.push_back(compose(x, d0, cb0, w0, of)); }
-      if (in.usedDeliv) { std::vector<std::string> c; delivChoices(in.delivT, &c); for (auto& x : c) alts.push_back(compose(e0, x, cb0, w0, of)); }
+      if (in.usedDeliv) { std::vector<std::string> c; delivChoices(in.delivT, &c, in.lateEcho); for (auto& x : c) alts.push_back(compose(e0, x, cb0, w0, of)); }
       if (in.usedCb) { VerifAccess::restore(g_h, g_d, g_t, cur); for (size_t r = 0; r < g_reqs.size(); r++) if (g_reqs[r]->status == 0 || g_reqs[r]->status == 3) alts.push_back(compose(e0, d0, (int)r, w0, of)); }
       if (in.usedW && !w0) alts.push_back(compose(e0, d0, cb0, true, of));
       if (!cur.valid && C.openFail && !of) alts.push_back(compose(e0, d0, cb0, w0, true));
